@@ -938,6 +938,7 @@ func runScenario(s *scenario) []caseRec {
 }
 
 func run(t *T) {
+	servicePhase(t)
 	n := t.Budget(300)
 	scs := plan(t, n)
 	results := make([][]caseRec, len(scs))
